@@ -458,6 +458,21 @@ func (r *Runner) Run(p *Prop, raw json.RawMessage) Result {
 			fmt.Fprintln(os.Stderr, "INFRA: worker failure:", o.err)
 			os.Exit(2)
 		case o.died:
+			// a long-lived worker that dies (heap watchdog, runtime fatal error) takes the case in flight with
+			// it; the case is only blamed when it also kills a fresh worker — otherwise the saved input would
+			// not reproduce anything
+			o2 := r.once(p.ID, raw, deadline)
+			if o2.err == nil && !o2.died && !o2.timeout {
+				if o2.res.Extra == nil {
+					o2.res.Extra = map[string]int{}
+				}
+				o2.res.Extra["worker_deaths_not_reproduced"]++
+				fmt.Fprintln(os.Stderr, "NOTE: a worker died ("+firstLine(o.stderr)+"); the case in flight passes in a fresh worker and is not blamed")
+				return o2.res
+			}
+			if o2.died {
+				o = o2
+			}
 			return r.classifyDeath(p, raw, o)
 		case o.timeout:
 			overruns++
@@ -648,4 +663,15 @@ func ReadReplay(path string) (*Replay, error) {
 		return nil, err
 	}
 	return &r, nil
+}
+
+func firstLine(s string) string {
+	s = strings.TrimSpace(s)
+	if i := strings.IndexByte(s, '\n'); i >= 0 {
+		s = s[:i]
+	}
+	if len(s) > 160 {
+		s = s[:160]
+	}
+	return s
 }
